@@ -13,9 +13,13 @@ Open Scope Z_scope.
 Record owire := OW { ow_typ : Z; ow_code : Z; ow_mid : Z; ow_tok : list Z; ow_opts : list (Z * list Z);
                      ow_plen : Z; ow_pcs : Z }.
 
-Inductive okind := KReq | KAge | KTick.
+(* KOther: something that is neither a request reaching the connection's request handling nor time:
+   a message withheld by the application's request monitor, a CoAP ping, a message the application
+   sends on its own (e.g. a separate response) *)
+Inductive okind := KReq | KAge | KTick | KOther.
 Record oev := { k : okind; typ : Z; mid : Z; ms : Z; called : bool; out : list owire }.
 
+(* EXCHANGE_LIFETIME of RFC 7252 section 4.8.2 with the default transmission parameters, in ms *)
 Definition SPEC_LIFETIME : Z := 247000.
 Definition MARGIN : Z := 300.
 
@@ -34,7 +38,7 @@ Fixpoint first_copy (m : Z) (rev_prefix : list oev) (elapsed : Z) : option (oev 
   | e :: r =>
       match k e with
       | KAge => first_copy m r (elapsed + ms e)
-      | KTick => first_copy m r elapsed
+      | KTick | KOther => first_copy m r elapsed
       | KReq => if (mid e =? m) && called e then Some (e, elapsed) else first_copy m r elapsed
       end
   end.
